@@ -63,6 +63,35 @@ def _work(payload):
     return ids, {"classifier_calls": calls, "presentation_or_sign_variants": variants}, fails
 
 
+def _graph_form_work(payload):
+    """Classify graphs given in graph form (Graph object and X_v Z_N(v) strings); returns (gid, id or message)."""
+    from .. import impl
+    n, gids = payload
+    out = []
+    for gid in gids:
+        try:
+            a = impl.class_id(impl.Stabilizer(impl.Graph.decompress(n, gid)))
+            b = impl.class_id(impl.Stabilizer(M.gens_str(B.graph_states_gens(n, gid), n)))
+            out.append((gid, a if a == b else "Graph object gives id %r, the same generators as strings id %r" % (a, b)))
+        except Exception as ex:      # noqa: BLE001
+            out.append((gid, "classifier raised %s: %s" % (type(ex).__name__, ex)))
+    return out
+
+
+def judge_graph_form(ctx, n, id_of_comp):
+    """Every graph on n vertices, given in graph form, must get the id of its model component."""
+    g = B.sg(n)
+    gids = list(range(1 << (n * (n - 1) // 2)))
+    for part in core.pmap(_graph_form_work, [(n, c) for c in core.chunk_list(gids, 32)]):
+        for gid, got in part:
+            ctx.count("graph_form_classified")
+            comp = g.component_of_gens(B.graph_states_gens(n, gid))
+            want = id_of_comp.get(comp)
+            if got != want:
+                ctx.violation({"kind": "graphform", "n": n, "graph_id": gid, "component_id": want},
+                              "graphform: n=%d graph %d given in graph form is classified %r; its local-Clifford class has id %r" % (n, gid, got, want))
+
+
 def explore(ctx, n, idxs, flags, label):
     g = B.sg(n)
     idxs = np.asarray(idxs, dtype=np.int64)
@@ -232,6 +261,7 @@ def check(ctx):
                 complete = True
         id_of_comp = judge_partition(ctx, n, idxs, ids, complete)
         judge_class_objects(ctx, n, id_of_comp)
+        judge_graph_form(ctx, n, id_of_comp)
         ctx.sample({"n": n, "state": M.gens_str(g.gens(int(idxs[len(idxs) // 2])), n),
                     "component": int(g.comp[int(idxs[len(idxs) // 2])]), "library_id": int(ids[len(idxs) // 2])})
     ctx.exhaustive = not quick
@@ -287,5 +317,13 @@ def replay_idrange(body):
     return None if sorted(ids) == list(range(M.N_CLASSES[n])) else "ids of component representatives: %r" % sorted(ids)[:10]
 
 
-REPLAY = {"pair": replay_pair, "variant": replay_variant, "classobj": replay_classobj, "count": replay_count,
+def replay_graphform(body):
+    n, gid = body["n"], body["graph_id"]
+    got = _graph_form_work((n, [gid]))[0][1]
+    ids = B.component_ids(n)
+    want = ids[B.sg(n).component_of_gens(B.graph_states_gens(n, gid))]
+    return None if got == want else "graph %d in graph form is classified %r, its class has id %r" % (gid, got, want)
+
+
+REPLAY = {"graphform": replay_graphform, "pair": replay_pair, "variant": replay_variant, "classobj": replay_classobj, "count": replay_count,
           "idrange": replay_idrange}
